@@ -203,3 +203,48 @@ var perms4 = func() [][]int {
 }()
 
 var _ = register("H_C19_cidforms", H_C19_cidforms)
+
+// H_C19_sortdup: a list in which one entry occurs twice (the same value handed in twice - what a caller merging
+// overlapping lists produces), sorted with the strict form of the hash ordering (its comparator reports the tie
+// of the twins as an error): the result is still a permutation of the input, ordered, and the same sequence
+// of entries for every input order.
+func H_C19_sortdup() {
+	es := []iface.IPFSLogEntry{symEntry("a", 0), symEntry("b", 1), symEntry("c", 2)}
+	dup := vx.Choice("dup", 3)
+	cmp := sorting.NoZeroes(sorting.SortByEntryHash)
+	base := []iface.IPFSLogEntry{es[0], es[1], es[2], es[dup]}
+	step := vx.Param("PSTEP", 1) // quick tier: every third of the 24 input orders
+	idx := perms4[step*vx.Choice("perm", len(perms4)/step)+step-1]
+	in1 := append([]iface.IPFSLogEntry{}, base...)
+	in2 := []iface.IPFSLogEntry{base[idx[0]], base[idx[1]], base[idx[2]], base[idx[3]]}
+	rev := vx.Param("REVERSE", 0) == 1
+	sorting.Sort(cmp, in1, rev)
+	sorting.Sort(cmp, in2, rev)
+	vx.Cover("sorted-with-twins")
+	count := [3]int{}
+	for i := 0; i < 4; i++ {
+		vx.Assert("C19", in1[i] == in2[i], "Sort is deterministic: same result for every input permutation (an entry listed twice)")
+		for j := 0; j < 3; j++ {
+			if in1[i] == es[j] {
+				count[j]++
+			}
+		}
+	}
+	for j := 0; j < 3; j++ {
+		want := 1
+		if j == dup {
+			want = 2
+		}
+		vx.Assert("C19", count[j] == want, "Sort returns a permutation of its input (an entry listed twice)")
+	}
+	for i := 0; i+1 < 4; i++ {
+		r, _ := sorting.SortByEntryHash(in1[i], in1[i+1])
+		if rev {
+			vx.Assert("C19", r >= 0, "Sort output is ordered (descending, an entry listed twice)")
+		} else {
+			vx.Assert("C19", r <= 0, "Sort output is ordered (ascending, an entry listed twice)")
+		}
+	}
+}
+
+var _ = register("H_C19_sortdup", H_C19_sortdup)
